@@ -353,6 +353,9 @@ def judge_figure(case, rep, S):
             if n >= 2 and rng.random() < 0.3:
                 coords[-1] = coords[0]              # two sequences at the very same point (e.g. a shuffle of the first)
                 rep.cnt("coincident_markers")
+            if rng.random() < 0.4:
+                coords[0] = (0.02, 0.95) if kind == "phase" else (round(rng.random(), 3), 0.95)     # near the top of the frame
+                rep.cnt("markers_near_top")
         if kind == "phase":
             xs, ys = [c[0] for c in coords], [c[1] for c in coords]           # fp, fn
         else:
@@ -377,7 +380,7 @@ def judge_figure(case, rep, S):
             if form < 0.2:
                 pos = [tuple(xs), tuple(ys)]
                 rep.cnt("tuple_coordinate_arguments")
-            elif form < 0.4:
+            elif form < 0.55:
                 pos = [np.array(xs), np.array(ys)]
                 rep.cnt("numpy_coordinate_arguments")
         else:
